@@ -288,6 +288,13 @@ def run(ctx, chk):
             chk.fail('C16.2', 'lemma', 'cannot establish offset <= 0x9f inside the copy loop (step uniform=%s, budget=%s, '
                      'saved offset range=%s)' % (step_ok, lemma_pre, offinv), file, None)
         oam = [p for p in model.write_paths() if p.get('status') == 'ok' and p['kind'] == 'buffer' and p['buffer'] == 'oam_ram']
+        # ... and on every path: the DMA stores through this helper, so a path that drops an OAM write (the LCD "owns" OAM
+        # in modes 2/3, say) drops copied bytes
+        stray = [p for p in model.write_paths() if p.get('status') == 'ok' and p['lo'] is not None and p['lo'] <= 0xfe9f and
+                 p['hi'] >= 0xfe00 and not (p['kind'] == 'buffer' and p['buffer'] == 'oam_ram')]
+        if stray:
+            chk.fail('C16.2', 'oam-write-total', 'a bus write to 0x%04x-0x%04x can end as %s instead of a store to OAM: bytes '
+                     'copied by the DMA on that path are lost' % (stray[0]['lo'], stray[0]['hi'], stray[0]['kind']), file, None)
         if oam and min(p['lo'] for p in oam) == 0xfe00 and max(p['hi'] for p in oam) == 0xfe9f:
             chk.ok('C16.2', 'oam-region', sample={'0xfe00-0xfe9f': 'oam_ram[addr & 0xff]'})
         else:
@@ -400,6 +407,13 @@ def run(ctx, chk):
                      'saved offset range=%s)' % (step_ok, lemma_pre, offinv), file, None)
         # destination region by C10's partition
         oam = [p for p in model.write_paths() if p.get('status') == 'ok' and p['kind'] == 'buffer' and p['buffer'] == 'oam_ram']
+        # ... and on every path: the DMA stores through this helper, so a path that drops an OAM write (the LCD "owns" OAM
+        # in modes 2/3, say) drops copied bytes
+        stray = [p for p in model.write_paths() if p.get('status') == 'ok' and p['lo'] is not None and p['lo'] <= 0xfe9f and
+                 p['hi'] >= 0xfe00 and not (p['kind'] == 'buffer' and p['buffer'] == 'oam_ram')]
+        if stray:
+            chk.fail('C16.2', 'oam-write-total', 'a bus write to 0x%04x-0x%04x can end as %s instead of a store to OAM: bytes '
+                     'copied by the DMA on that path are lost' % (stray[0]['lo'], stray[0]['hi'], stray[0]['kind']), file, None)
         if oam and min(p['lo'] for p in oam) == 0xfe00 and max(p['hi'] for p in oam) == 0xfe9f:
             chk.ok('C16.2', 'oam-region', sample={'0xfe00-0xfe9f': 'oam_ram[addr & 0xff]'})
         else:
